@@ -98,6 +98,12 @@ class SymByteArray(list):
     def decode(self, *a, **k):
         return self.concrete().decode(*a, **k)
 
+    def isascii(self):
+        for b in self:
+            if not (b < 128):        # forks on symbolic items
+                return False
+        return True
+
     def hex(self, *a):
         return self.concrete().hex(*a)
 
@@ -575,6 +581,9 @@ class TextBytes:
 
     def decode(self, *a):
         return self.text
+
+    def isascii(self):
+        return all(ord(c) < 128 or tokens.OPEN <= c <= '\uf8ff' for c in self.text)    # tokens render as ASCII digits
 
     def __len__(self):
         return len(self.text)
